@@ -17,6 +17,10 @@ pub(crate) use core::sync::atomic::*;
 #[cfg(feature = "loom")]
 pub(crate) use loom::sync::atomic::*;
 
+// verification hook: explicit imports take precedence over the glob import above
+#[cfg(rarena_verif)]
+pub(crate) use crate::verif_hook::{AtomicU32, AtomicU64, AtomicUsize};
+
 pub(crate) trait UnsafeCellExt<T> {
   fn as_inner_ptr(&self) -> *const T;
   fn as_inner_mut(&self) -> *mut T;
